@@ -1210,6 +1210,7 @@ impl<C: Config, Q: Query> Snapshot<C, Q> {
     pub(super) async fn done_backward_projection(
         mut self,
         mut backward_projection_lock_guard: BackwardProjectionLockGuard<C>,
+        active_computation_guard: Option<ActiveComputationGuard>,
     ) {
         let engine = self.engine().clone();
         let query_id = *self.query_id();
@@ -1221,6 +1222,9 @@ impl<C: Config, Q: Query> Snapshot<C, Q> {
         self.upgrade_to_exclusive().await;
 
         async move {
+            // keep input sessions out until the guarded block has finished
+            let _active_computation_guard = active_computation_guard;
+
             // the write batch must not be alive across the cancellable awaits
             // above: an active batch panics when dropped
             let mut tx = engine.new_write_transaction();
